@@ -93,8 +93,9 @@ Definition dec_input (t : tree) : option input :=
   | T [T [L ml; rc; L mr]; parts; com; wms; af] =>
       rc <- getB rc ;; parts <- getZs parts ;; com <- dec_cres com ;;
       wms <- getList dec_wres wms ;; af <- getB af ;;
+      (* the scripted client answers a query beyond its script with an error *)
       Some {| i_cfg := {| maxlag := ml; recov := rc; maxrec := mr |};
-              i_parts := parts; i_com := com; i_wms := wms; i_afail := af |}
+              i_parts := parts; i_com := com; i_wms := wms ++ repeat WErr (length parts - length wms); i_afail := af |}
   | _ => None
   end.
 Definition dec_bcast (t : tree) : option bcast :=
@@ -195,7 +196,10 @@ Definition dec_rinput (t : tree) : option rinput :=
   match t with
   | T [L 7; T [L ml; rc; L mr]; parts; atts; cancel] =>
       rc <- getB rc ;; parts <- getZs parts ;; atts <- getList dec_attempt atts ;; cancel <- getNat cancel ;;
-      Some {| r_cfg := {| maxlag := ml; recov := rc; maxrec := mr |}; r_parts := parts; r_atts := atts; r_cancel := cancel |}
+      Some {| r_cfg := {| maxlag := ml; recov := rc; maxrec := mr |}; r_parts := parts;
+              r_atts := map (fun a => {| at_com := at_com a; at_wms := at_wms a ++ repeat WErr (length parts - length (at_wms a));
+                                         at_fail := at_fail a |}) atts;
+              r_cancel := cancel |}
   | _ => None
   end.
 Definition dec_robs (t : tree) : option robs :=
@@ -215,9 +219,18 @@ Definition robs_diffs (a b : robs) : list Z :=
   ++ diff_if (list_eqb (list_eqb zz_eqb) (ro_assigns a) (ro_assigns b)) 2
   ++ diff_if (sent_eqb (ro_sent a) (ro_sent b)) 3 ++ diff_if (assign_eqb (ro_owned a) (ro_owned b)) 4.
 
+(* a retry scenario is well-formed when the loop ends within its script: by a successful attempt or by the revocation *)
+Definition retry_ends (i : rinput) : bool :=
+  let n := expected_attempts (r_parts i) (r_atts i) (r_cancel i) in
+  match rev (firstn n (r_atts i)) with
+  | a :: _ => negb (attempt_fails (r_parts i) a) || Nat.eqb n (S (r_cancel i))
+  | [] => true
+  end.
+
 Definition judge_retry (ti tobs : tree) : tree :=
   match dec_rinput ti, dec_robs tobs with
   | Some i, Some o =>
+      if negb (retry_ends i) then malformed else
       let m := model_robs i in
       verdict (robs_diffs m o) (map (fun c => clause 6 c []) (spec_c06_retry i o)) (enc_robs m)
               ([20] ++ (if Nat.ltb 1 (ro_calls m) then [21] else []) ++ (if Nat.ltb (ro_calls m) (length (r_atts i)) then [22] else []))
